@@ -44,9 +44,10 @@ pub fn glob_to_regex(glob: &str) -> regex::Regex {
 ///
 /// A pattern that is not a valid glob (a backslash followed by anything but `*`, `?` or a
 /// backslash) matches nothing: looking up a file must not panic on the contents of the
-/// copyright file.
+/// copyright file.  A path that is not valid UTF-8 is matched through its lossy conversion
+/// (every invalid sequence reads as U+FFFD), so `*` still matches it.
 pub fn glob_matches(glob: &str, path: &std::path::Path) -> bool {
-    try_glob_to_regex(glob).map_or(false, |r| r.is_match(path.to_str().unwrap()))
+    try_glob_to_regex(glob).map_or(false, |r| r.is_match(&path.to_string_lossy()))
 }
 
 #[cfg(test)]
